@@ -70,6 +70,17 @@ CHECKS.update({
          "5/C10"),
 })
 
+CHECKS.update({
+ "C14": ("differential runtime monitor: compressed delivery (arbitrary cuts of the compressed stream) vs plain delivery, output decoded by an independent decoder instance that must reach end-of-stream",
+         "For bodies from 0 B to 250 KB, gzip / deflate / br streams produced with several encoder settings are cut at every single offset (small streams), by strides and at random (with empty chunks) and fed to the real chain; the concatenated output must be a complete valid stream (independent flate2 / brotli decoder, gzip CRC and trailing bytes checked) whose decompression equals the filtered plain body; header values in any letter case; unsupported encodings must create no chain and leave the body untouched.",
+         "flate2 / brotli crates as independent encoder and decoder instances; the plain-body output of the same library is the reference (C03 owns plain chunk invariance); bodies avoid the C03 known class.",
+         "5/C14"),
+ "C15": ("DOM reference-model runtime monitor: generated trees with known source text, reference edit on the tree, byte comparison with the real filter output",
+         "The generator builds the document as a tree (so the expected output is known without parsing): skeleton + planted unique path chain of depth 1-4 + filler with void/self-closing elements, all attribute quoting styles, entities, multi-byte text, comments, scripts with tag-like text, upper-case tags, repeated sibling replace targets. Lists of 1-3 filters (3 actions x selector absent/empty/tag/[attr]/[attr=v]/tag[attr] x path prefixes) with generated value subtrees are applied by a reference edit on the tree; its serialisation must equal the output byte for byte.",
+         "Selector grammar restricted as described; a path running through an element replaced by an earlier filter is outside the statement and not generated; single-chunk delivery.",
+         "5/C15"),
+})
+
 PENDING_REASON = "monitor under construction in this session; not claimed until its check is registered"
 
 def main():
